@@ -273,14 +273,30 @@ func AccessPathsOfType(t types.Type) []string {
 
 //gocyclo:ignore
 func boundedAccessPathsOfType(t types.Type, n int) []string {
+	return boundedAccessPathsOfTypeRec(t, n, nil)
+}
+
+// boundedAccessPathsOfTypeRec is boundedAccessPathsOfType; unfolding is the set of named types unfolded since the bound
+// n was last decremented: pointers and named types do not consume the bound, so a type such as `type P *P` would
+// otherwise be unfolded forever.
+//
+//gocyclo:ignore
+func boundedAccessPathsOfTypeRec(t types.Type, n int, unfolding map[*types.Named]bool) []string {
 	if n <= 0 {
 		return []string{}
 	}
 	switch actualType := t.(type) {
 	case *types.Pointer:
-		return boundedAccessPathsOfType(actualType.Elem(), n)
+		return boundedAccessPathsOfTypeRec(actualType.Elem(), n, unfolding)
 	case *types.Named:
-		return boundedAccessPathsOfType(actualType.Underlying(), n)
+		if unfolding[actualType] {
+			return []string{}
+		}
+		next := map[*types.Named]bool{actualType: true}
+		for k := range unfolding {
+			next[k] = true
+		}
+		return boundedAccessPathsOfTypeRec(actualType.Underlying(), n, next)
 	case *types.Array:
 		accessPaths := boundedAccessPathsOfType(actualType.Elem(), n-1)
 		for i, aPath := range accessPaths {
